@@ -10,7 +10,7 @@ from .load import AnalysisError, FuncInfo
 class HObj:
     """kind: list | dict | obj | bytearray | set"""
 
-    __slots__ = ("kind", "items", "exact", "kv", "writes", "cls", "attrs", "origin", "version", "label", "created_ctx", "base", "is_gen")
+    __slots__ = ("kind", "items", "exact", "kv", "writes", "cls", "attrs", "origin", "version", "label", "created_ctx", "base", "is_gen", "sure")
 
     def __init__(self, kind, cls=None, origin=None, label=""):
         self.kind = kind
@@ -26,6 +26,7 @@ class HObj:
         self.created_ctx = ()
         self.base = None  # bytearray(base) / list(base) source term when not exact
         self.is_gen = False
+        self.sure = None  # dict: keys certainly present when not exact
 
     def clone(self) -> "HObj":
         o = HObj(self.kind, self.cls, self.origin, self.label)
@@ -38,6 +39,7 @@ class HObj:
         o.created_ctx = self.created_ctx
         o.base = self.base
         o.is_gen = self.is_gen
+        o.sure = set(self.sure) if self.sure is not None else None
         return o
 
 
